@@ -267,7 +267,8 @@ class Tap:
     @staticmethod
     def _make(name, orig, sink):
         def shim(*args, **kwargs):
-            rec = {"name": name, "args": args, "kwargs": dict(kwargs)}
+            # the arguments are kept as they were AT THE CALL (a simulation may write into the actions it receives)
+            rec = {"name": name, "args": copy.deepcopy(args) if name == "step" else args, "kwargs": dict(kwargs)}
             sink.begin(rec)
             try:
                 rec["result"] = orig(*args, **kwargs)
